@@ -84,6 +84,24 @@ namespace hv
                 }
             }
         };
+        struct NPulse
+        {   // passes each input through and re-emits (10 * latest input) two steps later: a timer is pending in the very
+            // cycle in which a node further down the same child may throw
+            static constexpr auto name = "ho_pulse";
+            static void start(State<Int> s) { s.set(Int{-1}); }
+            static void eval(In<"ts", TS<Int>> ts, State<Int> s, NodeScheduler sched, DateTime now, Out<TS<Int>> out)
+            {
+                const bool due = sched.is_scheduled_now();
+                hlog("ev", "Pulse", now, ts.value(), due ? 1 : 0);
+                if (due) out.set(s.get() * 10);
+                if (ts.modified())
+                {
+                    s.set(ts.value());
+                    out.set(ts.value());
+                    sched.schedule(MIN_TD * 2);
+                }
+            }
+        };
         struct NFailOn
         {   // throws when the element equals the magic value
             static constexpr auto name = "ho_fail_on";
@@ -132,6 +150,7 @@ namespace hv
         };
         struct TickAfterG { static constexpr auto name = "ho_tick_after_g"; static P compose(Wiring &w, P ts) { return wire<NTickAfter>(w, ts); } };
         struct FailOnG { static constexpr auto name = "ho_fail_on_g"; static P compose(Wiring &w, P ts) { return wire<NFailOn>(w, ts); } };
+        struct PulseFailG { static constexpr auto name = "ho_pulse_fail_g"; static P compose(Wiring &w, P ts) { return wire<NFailOn>(w, wire<NPulse>(w, ts)); } };
         struct Add2G { static constexpr auto name = "ho_add2_g"; static P compose(Wiring &w, P ts, P b) { return wire<NAdd2>(w, ts, b); } };
         struct ConstSourceG { static constexpr auto name = "ho_const_source_g"; static P compose(Wiring &w, P ts) { (void)ts; return wire<NConstSource>(w); } };
         struct ChainG
@@ -190,6 +209,7 @@ namespace hv
             if (f == "AddKey") return fn<AddKeyG>();
             if (f == "TickAfter") return fn<TickAfterG>();
             if (f == "FailOn") return fn<FailOnG>();
+            if (f == "PulseFail") return fn<PulseFailG>();
             if (f == "Add2") return fn<Add2G>();
             if (f == "ConstSource") return fn<ConstSourceG>();
             if (f == "Chain") return fn<ChainG>();
